@@ -73,6 +73,17 @@ public:
         ,       MemoryManager*     const manager = XMLPlatformUtils::fgMemoryManager
         );
 
+    /**
+      * Returns the canonical representation of a hexBinary literal:
+      * the hex digits A-F are in upper case.
+      */
+    virtual const XMLCh* getCanonicalRepresentation
+                        (
+                          const XMLCh*         const rawData
+                        ,       MemoryManager* const memMgr = 0
+                        ,       bool                 toValidate = false
+                        ) const;
+
     /***
      * Support for Serialization/De-serialization
      ***/
